@@ -45,7 +45,10 @@ def problems():
             if fail:
                 raise boom
 
-        for items, fail, take in (([1, 2, 3], False, None), ([], False, None), ([1, 2], True, None), ([1, 2, 3], False, 1)):
+        from haiway import MISSING
+        for items, fail, take in (([1, 2, 3], False, None), ([], False, None), ([1, 2], True, None), ([1, 2, 3], False, 1),
+                                  ([None, 0, "", False, ()], False, None), ([1, MISSING, 2], False, None), ([MISSING], True, None),
+                                  ([StopAsyncIteration, None, NotImplemented, ...], True, None)):
             got, end = [], None
             async with ctx.scope("creator", S(v=1)):
                 stream = ctx.stream(source, items, fail)
